@@ -46,7 +46,7 @@ VARIABLES
   inbuf,      \* delivered, not yet consumed by readline
   cclosed,    \* server closed the control connection
   pend,       \* commands (or the greeting) the server has not answered yet
-  daddr,      \* 0: none, 1: the passive address where the server listens, 2: one that refuses
+  daddr,      \* address parsed from the last 227 reply: 0: none, 1: where the server listens, 2: one that refuses
   dq,         \* data connection: piece sizes in flight
   dclosed,    \* server closed the data connection
   dsent, dgot,
@@ -59,7 +59,8 @@ VARIABLES
 scen  == <<mode, restart, user, pass, path>>
 cvars == <<cpc, bcmd, cur, consumed, logged, sess>>
 nvars == <<copen, wire, inbuf, cclosed, pend>>
-dvars == <<daddr, dq, dclosed, dsent, dgot, xfer, finalSent>>
+drest == <<dq, dclosed, dsent, dgot, xfer, finalSent>>
+dvars == <<daddr, drest>>
 ovars == <<cmdBytes, auto, replyOK, transferComplete, dataEOFSeen, finalReplySeen, finalCode, bodyOK, codes, outcome>>
 vars  == <<scen, cvars, nvars, dvars, ovars, odd>>
 
@@ -127,6 +128,8 @@ OKt == <<111, 107>>                                                 \* "ok"
 A1  == <<40, 49, 48, 44, 48, 44, 48, 44, 49, 44, 52, 44, 49, 41>>    \* "(10,0,0,1,4,1)": the server listens there
 A2  == <<40, 49, 48, 44, 48, 44, 48, 44, 49, 44, 52, 44, 50, 41>>    \* "(10,0,0,1,4,2)": nobody listens there
 
+PasvAddr(t) == IF Contains(t, A1) THEN 1 ELSE IF Contains(t, A2) THEN 2 ELSE 0
+
 ShapeBytes(c, t, sh) ==
   LET D == Digits(c) IN
   CASE sh = "single"    -> D \o <<SP>> \o t \o CRLF
@@ -169,7 +172,7 @@ Init == \E m \in Modes, rq \in Requests :
 -----------------------------------------------------------------------------
 (* Where the client goes next: [pc, issue = <<>> | <<name, argument>>, logged, b]                       *)
 
-Tgt(pc, issue, lg, b) == [pc |-> pc, issue |-> issue, logged |-> lg, b |-> b]
+Tgt(pc, issue, lg, b) == [pc |-> pc, issue |-> issue, logged |-> lg, b |-> b, addr |-> daddr]
 Fail == Tgt("error", <<>>, <<>>, bcmd)
 AfterLogin(lg) == IF mode = "file" THEN Tgt("r_size", <<nSIZE, PathB>>, lg, bcmd)
                                    ELSE Tgt("r_type", <<nTYPE, <<73>>>>, lg, bcmd)
@@ -189,8 +192,9 @@ Go(c, t) ==
                                        ELSE Tgt("r_type", <<nTYPE, <<73>>>>, logged, bcmd)
     [] cpc = "r_rest"    -> Tgt("r_type", <<nTYPE, <<73>>>>, logged, bcmd)
     [] cpc = "r_type"    -> IF c = 200 THEN Tgt("r_pasv", <<nPASV, <<>>>>, logged, bcmd) ELSE Fail
-    [] cpc = "r_pasv"    -> IF c = 227 /\ (Contains(t, A1) \/ Contains(t, A2))
-                            THEN Tgt("dconnect", <<>>, logged, bcmd) ELSE Fail
+    \* Commander.passive_mode: util.parse_address(reply.text)
+    [] cpc = "r_pasv"    -> IF c = 227 /\ PasvAddr(t) # 0
+                            THEN [Tgt("dconnect", <<>>, logged, bcmd) EXCEPT !.addr = PasvAddr(t)] ELSE Fail
     [] cpc = "r_begin"   -> IF c \in {150, 125} THEN Tgt("data", <<>>, logged, bcmd)
                             ELSE IF bcmd = "MLSD" /\ c \in {500, 502} THEN Tgt("r_begin", <<nLIST, PathB>>, logged, "LIST")
                             ELSE Fail
@@ -200,7 +204,7 @@ Go(c, t) ==
 Apply(g) ==
   LET rejected == g.issue # <<>> /\ RejectCtl /\ BadArg(g.issue[2])
       npc      == IF rejected THEN "error" ELSE g.pc
-  IN /\ cpc' = npc /\ bcmd' = g.b
+  IN /\ cpc' = npc /\ bcmd' = g.b /\ daddr' = g.addr
      /\ logged' = IF npc = "error" THEN <<>> ELSE g.logged          \* Session.abort pops the login table
      /\ IF g.issue # <<>> /\ ~rejected
         THEN LET bytes == Cmd(g.issue[1], g.issue[2]) IN
@@ -223,8 +227,8 @@ Connect ==
      ELSE /\ copen' = TRUE /\ pend' = 1 /\ cpc' = "r_welcome" /\ logged' = <<>>
           /\ wire' = <<>> /\ inbuf' = <<>> /\ cclosed' = FALSE
           /\ auto' = <<"start", FALSE, auto[3]>>
-          /\ UNCHANGED <<bcmd, cmdBytes, outcome, transferComplete, bodyOK>>
-  /\ UNCHANGED <<scen, cur, consumed, sess, dvars, replyOK, dataEOFSeen, finalReplySeen, finalCode, codes, odd>>
+          /\ UNCHANGED <<bcmd, daddr, cmdBytes, outcome, transferComplete, bodyOK>>
+  /\ UNCHANGED <<scen, cur, consumed, sess, drest, replyOK, dataEOFSeen, finalReplySeen, finalCode, codes, odd>>
 
 \* the network hands over the next piece (fakenet: only when the reader would block)
 Deliver(n) ==
@@ -243,10 +247,10 @@ ReadLine ==
         /\ IF st.crash
            THEN /\ cpc' = "crash" /\ outcome' = "crash" /\ copen' = FALSE /\ logged' = <<>>
                 /\ cur' = P0 /\ consumed' = <<>>
-                /\ UNCHANGED <<bcmd, pend, cmdBytes, auto, replyOK, transferComplete, finalReplySeen, finalCode, bodyOK, codes>>
+                /\ UNCHANGED <<bcmd, daddr, pend, cmdBytes, auto, replyOK, transferComplete, finalReplySeen, finalCode, bodyOK, codes>>
            ELSE IF st.code = 0
            THEN /\ cur' = st /\ consumed' = cons
-                /\ UNCHANGED <<cpc, bcmd, logged, copen, pend, cmdBytes, auto, replyOK, transferComplete, finalReplySeen,
+                /\ UNCHANGED <<cpc, bcmd, daddr, logged, copen, pend, cmdBytes, auto, replyOK, transferComplete, finalReplySeen,
                                finalCode, bodyOK, codes, outcome>>
            ELSE /\ cur' = P0 /\ consumed' = <<>>
                 /\ replyOK' = (replyOK /\ RefAssemble(cons) = st)
@@ -254,14 +258,14 @@ ReadLine ==
                 /\ finalReplySeen' = (finalReplySeen \/ cpc = "r_final")
                 /\ finalCode' = IF cpc = "r_final" THEN st.code ELSE finalCode
                 /\ Apply(Go(st.code, st.text))
-  /\ UNCHANGED <<scen, sess, wire, cclosed, dvars, dataEOFSeen, odd>>
+  /\ UNCHANGED <<scen, sess, wire, cclosed, drest, dataEOFSeen, odd>>
 
 \* readline() returns a line without LF at end of stream: NetworkError('Connection closed.')
 ReadEOF ==
   /\ cpc \in ReadingPcs /\ ~Has(inbuf, LF) /\ wire = <<>> /\ cclosed
   /\ Apply(Fail)
   /\ cur' = P0 /\ consumed' = <<>> /\ inbuf' = <<>>
-  /\ UNCHANGED <<scen, sess, wire, cclosed, dvars, replyOK, dataEOFSeen, finalReplySeen, finalCode, codes, odd>>
+  /\ UNCHANGED <<scen, sess, wire, cclosed, drest, replyOK, dataEOFSeen, finalReplySeen, finalCode, codes, odd>>
 
 \* Commander.setup_data_stream: connect to the address of the 227 reply, then begin the transfer
 Last(s) == s[Len(s)]
@@ -269,7 +273,7 @@ DataConnect ==
   /\ cpc = "dconnect"
   /\ IF daddr = 1 THEN Apply(Begin) /\ dclosed' = FALSE /\ dq' = <<>>
                   ELSE Apply(Fail) /\ UNCHANGED <<dclosed, dq>>
-  /\ UNCHANGED <<scen, cur, consumed, sess, wire, inbuf, cclosed, daddr, dsent, dgot, xfer, finalSent,
+  /\ UNCHANGED <<scen, cur, consumed, sess, wire, inbuf, cclosed, dsent, dgot, xfer, finalSent,
                  replyOK, dataEOFSeen, finalReplySeen, finalCode, codes, odd>>
 
 \* DataStream.read_file: read(4096) returns a piece ...
@@ -298,21 +302,17 @@ NextSession(u, m) ==
 -----------------------------------------------------------------------------
 (* Server (environment)                                                     *)
 
-PasvAddr(t) == IF Contains(t, A1) THEN 1 ELSE IF Contains(t, A2) THEN 2 ELSE 0
-
 \* answer the pending command with the bytes bs
-Send(bs, isBegin, addr) ==
+Send(bs, isBegin) ==
   /\ pend > 0 /\ ~cclosed
   /\ wire' = wire \o bs /\ pend' = pend - 1
   /\ xfer' = (xfer \/ isBegin)
-  /\ daddr' = IF addr # 0 THEN addr ELSE daddr
-  /\ UNCHANGED <<scen, cvars, copen, inbuf, cclosed, dq, dclosed, dsent, dgot, finalSent, ovars>>
+  /\ UNCHANGED <<scen, cvars, copen, inbuf, cclosed, daddr, dq, dclosed, dsent, dgot, finalSent, ovars>>
 
 ServerReply ==
   \E m \in Menu(cpc, bcmd), sh \in Shapes :
     /\ (sh # "single" => odd < MaxOdd) /\ odd' = IF sh = "single" THEN odd ELSE odd + 1
-    /\ Send(ShapeBytes(m[1], m[2], sh), cpc = "r_begin" /\ m[1] \in {150, 125} /\ sh # "other",
-            IF cpc = "r_pasv" /\ m[1] = 227 /\ sh # "other" THEN PasvAddr(m[2]) ELSE 0)
+    /\ Send(ShapeBytes(m[1], m[2], sh), cpc = "r_begin" /\ m[1] \in {150, 125} /\ sh # "other")
 
 \* the closing reply of the transfer: any time after the 150, before or after the data connection is closed
 SendFinal(bs) ==
